@@ -44,7 +44,7 @@ def path_key(p):
     if p == "/":
         return ()
     if p.startswith("ns:") or p.startswith("?"):
-        return (10 ** 9, p)
+        return ((2, p),)      # same shape as the other keys (a tuple of tagged segments), sorts behind them
     key = []
     for seg in p.strip("/").split("/"):
         if seg.startswith("@"):
